@@ -19,6 +19,9 @@ def run(prop, prop_file, specs, oracles, trusted, rule, extra=None, level="proof
     rep = common.Report(prop, level)
     rep.cov["trusted_base"] = trusted
     broken = []
+    rc, out = common.regenerate()      # the model's constants always come from the current source
+    if rc != 0:
+        broken.append({"kind": "translator", "detail": out})
     if prop_file:
         ok, detail = common.proof_stage(rep, prop_file)
         if not ok:
@@ -79,9 +82,9 @@ def run(prop, prop_file, specs, oracles, trusted, rule, extra=None, level="proof
             meta, kw = metas[cid]
             r = gen.parse_result(impl.get(cid, []))
             dist[(meta["method"], "bwd" if meta["backward"] else "fwd", r.get("status"))] += 1
-            if nontrivial(r):
+            if spec.get("nontrivial", nontrivial)(r):
                 nontriv.add(line.split(" ", 2)[2] if line.count(" ") > 2 else line)
-            if len(samples) < 3 and nontrivial(r):
+            if len(samples) < 3 and spec.get("nontrivial", nontrivial)(r):
                 samples.append({"case": line[:600], "status": r.get("status"), "stats": r.get("stats"), "n_samples": len(r.get("t", []))})
             fired = []
             for orc in oracles:
